@@ -84,6 +84,11 @@ func TestReplaySearchTrace(t *testing.T) {
 		{"P", 1, "F.X == 1", `F.Note("P1"); F.Y = 3; F.Boom(); F.Note("P2");`, func(f *replayTraceFact) (bool, bool) { return f.X == 1, true }},
 		{"Q", 0, "F.Y == 3", `F.Note("Q");`, func(f *replayTraceFact) (bool, bool) { return f.Y == 3, true }},
 	}})
+	// panicking condition: the rule is skipped (or the error returned when strict), never a crash
+	scenarios = append(scenarios, scenario{[]replayRule{
+		{"A", 5, "F.X < 1", `F.Note("A"); F.X = F.X + 1;`, func(f *replayTraceFact) (bool, bool) { return f.X < 1, true }},
+		{"W", 1, "F.Boom()", `F.Note("W");`, func(f *replayTraceFact) (bool, bool) { return false, false }},
+	}})
 	for si, sc := range scenarios {
 		var grl strings.Builder
 		for _, r := range sc.rules {
@@ -105,7 +110,15 @@ func TestReplaySearchTrace(t *testing.T) {
 					dctx.Add("F", f)
 					rec := &replayRecorder{}
 					e := &GruleEngine{MaxCycle: maxCycle, ReturnErrOnFailedRuleEvaluation: strict, Listeners: []GruleEngineListener{rec, rec}}
-					res := e.Execute(dctx, kb)
+					var res error
+					func() {
+						defer func() {
+							if r := recover(); r != nil {
+								t.Fatalf("CONFIRMED: a panic (%v) escaped Execute instead of being turned into an error / a skipped rule\nscenario #%d MaxCycle=%d Arr=%v strict=%v rules:\n%s", r, si, maxCycle, arr, strict, grl.String())
+							}
+						}()
+						res = e.Execute(dctx, kb)
+					}()
 					where := fmt.Sprintf("scenario #%d MaxCycle=%d Arr=%v strict=%v rules:\n%s trace=%v result=%v log=%v", si, maxCycle, arr, strict, grl.String(), rec.evs, res, f.Log)
 					if msg := replayCheckTrace(sc.rules, rec.evs, res, maxCycle, strict, f); msg != "" {
 						t.Fatalf("CONFIRMED: %s\n%s", msg, where)
